@@ -34,6 +34,7 @@ pub fn mandatory(_tier: Tier) -> Vec<&'static str> {
         "groupops/equal_operands",
         "groupops/empty_operand",
         "groupops/insert_existing",
+        "groupops/constructor_input_with_repeats",
     ]
 }
 
@@ -59,18 +60,32 @@ fn ids(g: &HpoGroup) -> Vec<u32> {
 }
 
 fn from_set(s: &BTreeSet<u32>, how: u64) -> HpoGroup {
+    // the constructor input is unsorted and (for half of the calls) contains repeated ids:
+    // the result must still be the set
+    let mut input: Vec<u32> = s.iter().rev().copied().collect();
+    if (how / 5) % 2 == 1 {
+        let dups: Vec<u32> = s.iter().copied().enumerate().filter(|(i, _)| (*i as u64 + how) % 3 == 0).map(|(_, x)| x).collect();
+        let mid = input.len() / 2;
+        for (j, d) in dups.iter().enumerate() {
+            match j % 3 {
+                0 => input.push(*d),
+                1 => input.insert(0, *d),
+                _ => input.insert(mid.min(input.len()), *d),
+            }
+        }
+    }
     match how % 5 {
         0 => {
             let mut g = HpoGroup::new();
-            for x in s.iter().rev() {
+            for x in &input {
                 g.insert(*x);
             }
             g
         }
-        1 => HpoGroup::from(s.iter().rev().map(|x| tid(*x)).collect::<Vec<HpoTermId>>()),
-        2 => HpoGroup::from(s.iter().copied().collect::<Vec<u32>>()),
-        3 => HpoGroup::from(s.iter().map(|x| tid(*x)).collect::<HashSet<HpoTermId>>()),
-        _ => s.iter().rev().map(|x| tid(*x)).collect::<HpoGroup>(),
+        1 => HpoGroup::from(input.iter().map(|x| tid(*x)).collect::<Vec<HpoTermId>>()),
+        2 => HpoGroup::from(input.clone()),
+        3 => HpoGroup::from(input.iter().map(|x| tid(*x)).collect::<HashSet<HpoTermId>>()),
+        _ => input.iter().map(|x| tid(*x)).collect::<HpoGroup>(),
     }
 }
 
@@ -252,8 +267,12 @@ pub fn run_case(label: &str, rng: &mut Rng, _tier: Tier, out: &mut CaseOut) {
         }
     }
     check_group(&g, &m, "history_end", out);
-    let how = rng.next_u64();
-    check_group(&from_set(&a, how), &a, &format!("constructor_{}", how % 5), out);
+    for how in 0..10u64 {
+        bump(&mut out.events, "HpoGroup::constructor");
+        let h = how + 10 * rng.below(1000);
+        check_group(&from_set(&a, h), &a, &format!("constructor_{}{}", h % 5, if (h / 5) % 2 == 1 { "_with_repeats" } else { "" }), out);
+    }
+    out.bucket("groupops/constructor_input_with_repeats");
     binary_ops(&a, &b, rng.next_u64(), out);
     single_ops(&a, rng.below(span) as u32, rng.next_u64(), out);
     if let Some(x) = a.iter().next() {
